@@ -222,8 +222,8 @@ func (twp *TaskWorkerPool[T]) Run(task TaskFunc[T]) (T, error) {
 
 func (twp *TaskWorkerPool[T]) Shutdown() {
 	twp.shutdownOnce.Do(func() {
-		twp.closed.Store(true)
 		verifhook.Emit("pool.shutdown")
+		twp.closed.Store(true)
 		close(twp.jobCh)
 	})
 }
